@@ -12,6 +12,8 @@ pub struct RecordMaybeUninit<const CAP: usize> {
     _not_send_sync: PhantomData<*mut u8>,
     #[cfg(feature = "verif-hooks")]
     shadow: [verif::ShadowByte; CAP],
+    #[cfg(feature = "verif-hooks")]
+    zero_size: verif::ZeroSizeShadow,
 }
 
 impl<const CAP: usize> RecordMaybeUninit<CAP> {
@@ -22,6 +24,8 @@ impl<const CAP: usize> RecordMaybeUninit<CAP> {
             _not_send_sync: PhantomData,
             #[cfg(feature = "verif-hooks")]
             shadow: unsafe { std::mem::zeroed() },
+            #[cfg(feature = "verif-hooks")]
+            zero_size: unsafe { std::mem::zeroed() },
         }
     }
 
